@@ -7,3 +7,4 @@ import Abmarl.Props.C16
 #print axioms Abmarl.C16_stub
 #print axioms Abmarl.generateEpisode_ok
 #print axioms Abmarl.episodeLoop_ok
+#print axioms Abmarl.C16_train
